@@ -1,13 +1,1051 @@
-"""Shared manager-scenario runner and trace oracles (filled in below)."""
+"""Shared manager-scenario runner and trace oracles.
+
+Every execution of a manager scenario produces a World (event log, FakeS3
+tables, destinations).  Oracles are functions world -> [(sig, msg)], the sig
+starts with the property id; a property's check reports only its own sigs.
+"""
+import os
+import time
+
+from .. import harness, explore, detsched
+from ..env.fs import ScratchDir
+from ..env.s3 import InjectedClientError
+from ..harness import BUCKET
+
+harness.install()
+from s3transfer.exceptions import CancelledError, FatalError, RetriesExceededError  # noqa: E402
+from s3transfer.utils import NoResourcesAvailable, S3_RETRYABLE_DOWNLOAD_ERRORS  # noqa: E402
+
+DATA_OPS = ('PutObject', 'GetObject', 'UploadPart', 'UploadPartCopy', 'CopyObject',
+            'DeleteObject', 'CreateMultipartUpload', 'CompleteMultipartUpload',
+            'AbortMultipartUpload')
 
 
-def semaphore_quiescence(tier, seed):
-    return {'coverage': {}, 'violations': []}
+# ---------------------------------------------------------------------------
+# trace helpers
+# ---------------------------------------------------------------------------
+
+class Tr:
+    """Indexes of one execution's log."""
+
+    def __init__(self, w):
+        self.w = w
+        self.log = w.sched.log
+        self.by_kind = {}
+        for e in self.log:
+            self.by_kind.setdefault(e[2], []).append(e)
+        self.calls = w.s3.calls
+        # transfer index by key
+        self.key2idx = {}
+        for info in w.transfers:
+            self.key2idx[info['key']] = info['idx']
+            t = info['t']
+            if t['op'] == 'copy':
+                self.key2idx.setdefault(t['src_key'], info['idx'])
+        self.calls_of = {}
+        for c in self.calls:
+            k = c['kwargs'].get('Key')
+            idx = self.key2idx.get(k)
+            c['tidx'] = idx
+            self.calls_of.setdefault(idx, []).append(c)
+
+    def ev(self, kind):
+        return self.by_kind.get(kind, [])
+
+    def first_step(self, kind, **match):
+        for e in self.ev(kind):
+            if all(e[3].get(k) == v for k, v in match.items()):
+                return e[0]
+        return None
+
+    def injected_for(self, idx):
+        """faults that hit transfer idx (by call key / tid)"""
+        out = []
+        w = self.w
+        callmap = {c['id']: c for c in self.calls}
+        for f in w.all_injected():
+            cid = f.get('call')
+            if cid is not None:
+                if callmap[cid].get('tidx') == idx:
+                    out.append(f)
+            elif f.get('tid') is not None:
+                if f['tid'] == idx:
+                    out.append(f)
+            else:
+                # fs / stream faults: only one transfer uses the fs in the
+                # scenarios that inject them, or attribute to all
+                out.append(f)
+        return out
 
 
-def stream_download_e2e(tier, seed):
-    return {'coverage': {}, 'violations': []}
+def cancel_events(tr):
+    return tr.ev('inject')
+
+
+def was_cancel_injected(tr):
+    return bool(tr.ev('inject')) or tr.w.scn.get('script', '').startswith('with_raise')
+
+
+def is_cancel_exc(e):
+    return isinstance(e, CancelledError)
+
+
+# ---------------------------------------------------------------------------
+# oracles
+# ---------------------------------------------------------------------------
+
+def o_termination(w, tr):
+    s = w.sched
+    out = []
+    if s.outcome == 'deadlock':
+        out.append(('C04:deadlock', f'no enabled thread; blocked: {s.outcome_detail}'))
+    elif s.outcome == 'livelock':
+        out.append(('C04:livelock', str(s.outcome_detail)))
+    elif s.outcome != 'ok':
+        out.append((f'C04:{s.outcome}', str(s.outcome_detail)))
+    else:
+        if not w.script_done:
+            out.append(('C04:user-script-unfinished', f'user thread ended early: {w.script_exc!r}'))
+        for t in s.threads:
+            if t.exc is not None and t.role != 'inject' and not isinstance(t.exc, KeyboardInterrupt):
+                out.append(('C04:thread-crash', f'{t.name}: {t.exc!r}'))
+                break
+        for i, f in enumerate(w.futures):
+            if i not in w.outcomes:
+                out.append(('C04:future-never-done', f'transfer {i} has no outcome'))
+    return out
+
+
+def _dest_bytes(w, info):
+    t = info['t']
+    dst = t.get('dst', 'path')
+    if dst == 'path':
+        try:
+            with open(info['path'], 'rb') as f:
+                return f.read()
+        except FileNotFoundError:
+            return None
+    if dst == 'special':
+        sink = w.osutil.special_sinks.get(info['path'])
+        return sink.concatenation() if sink else b''
+    st = info['stream']
+    if dst == 'seekable':
+        return st.getvalue()
+    return st.concatenation()
+
+
+def o_exact(w, tr):
+    """C01 / C02: byte-exact effect on success; fault-free runs succeed."""
+    out = []
+    if w.sched.outcome != 'ok':
+        return out
+    nofault = not w.all_injected() and not was_cancel_injected(tr)
+    for info in w.transfers:
+        idx = info['idx']
+        oc = w.outcomes.get(idx)
+        if oc is None:
+            continue
+        op = info['op']
+        P = 'C02' if op == 'download' else 'C01'
+        if op == 'delete':
+            if oc[0] == 'ok' and (BUCKET, info['key']) in w.s3.objects:
+                out.append(('C01:delete-not-applied', f'delete {idx} ok but object still present'))
+            continue
+        if oc[0] != 'ok':
+            if nofault:
+                out.append((f'{P}:fault-free-failure',
+                            f'transfer {idx} ({op}) failed without any injected fault/cancel: {oc[1]!r}'))
+            continue
+        exp = info['expected']
+        if op in ('upload', 'copy'):
+            got = w.s3.objects.get((BUCKET, info['key']))
+            if got != exp:
+                out.append((f'C01:{op}:wrong-object',
+                            f'transfer {idx} succeeded but object is {_show(got)} expected {_show(exp)} '
+                            f'(scn transfer {info["t"]})'))
+            ups = [u for u in w.s3.uploads.values() if u['key'] == info['key']]
+            for u in ups:
+                if u['completes'] != 1:
+                    out.append((f'C01:{op}:completed-{u["completes"]}-times', f'upload {u["id"]} of successful transfer {idx}'))
+                ck = u.get('complete_kwargs')
+                if ck:
+                    parts = ck['MultipartUpload']['Parts']
+                    nums = [p.get('PartNumber') for p in parts]
+                    if nums != list(range(1, len(nums) + 1)):
+                        out.append((f'C01:{op}:part-order', f'parts listed as {nums}'))
+                    for p in parts:
+                        have = u['parts'].get(p.get('PartNumber'))
+                        if have and have.get('cs') is not None and u.get('ctype') != 'FULL_OBJECT':
+                            member = 'Checksum' + have['algo']
+                            if p.get(member) != have['cs']:
+                                out.append((f'C01:{op}:part-checksum',
+                                            f'part {p.get("PartNumber")} listed with {member}={p.get(member)!r}, S3 returned {have["cs"]!r}'))
+                                break
+            st = info.get('stream')
+            if st is not None and st.seekable() and st.min_pos_seen < st.start:
+                out.append(('C01:upload:read-before-start', f'stream seeked to {st.min_pos_seen} < start {st.start}'))
+        else:
+            got = _dest_bytes(w, info)
+            dst = info['t'].get('dst', 'path')
+            if got != exp:
+                out.append((f'C02:download:{dst}:wrong-bytes',
+                            f'transfer {idx} succeeded but destination holds {_show(got)} expected {_show(exp)}; '
+                            f'writes={_writes(info)}'))
+            elif dst == 'seekable':
+                for off, d in info['stream'].writes:
+                    if off < 0 or off + len(d) > len(exp):
+                        out.append(('C02:download:seekable:write-outside', f'write ({off},{len(d)}) outside [0,{len(exp)})'))
+                        break
+            # attempts per range
+            attempts = w.manager.config.num_download_attempts
+            per = {}
+            for c in tr.calls_of.get(idx, []):
+                if c['op'] == 'GetObject':
+                    per[c['kwargs'].get('Range')] = per.get(c['kwargs'].get('Range'), 0) + 1
+            for r, n in per.items():
+                if n > attempts:
+                    out.append(('C03:too-many-attempts', f'{n} GetObject requests for range {r} (limit {attempts})'))
+    return out
+
+
+def _show(b):
+    if b is None:
+        return 'None'
+    if len(b) > 24:
+        return f'{bytes(b[:24])!r}...({len(b)} bytes)'
+    return f'{bytes(b)!r}'
+
+
+def _writes(info):
+    st = info.get('stream')
+    if st is None:
+        return None
+    return [(o, len(d)) for o, d in st.writes][:12]
+
+
+def o_streaming_order(w, tr):
+    """C16 end-to-end: non-seekable destinations are written in strictly
+    increasing offset order, each byte once (whatever the outcome)."""
+    out = []
+    for info in w.transfers:
+        if info['op'] != 'download':
+            continue
+        dst = info['t'].get('dst', 'path')
+        if dst not in ('nonseekable', 'special'):
+            continue
+        if dst == 'special':
+            sink = w.osutil.special_sinks.get(info['path'])
+            writes = sink.writes if sink else []
+        else:
+            writes = info['stream'].writes
+        exp = info['expected']
+        cat = b''.join(d for _, d in writes)
+        if cat != exp[:len(cat)]:
+            # find first divergence
+            k = next((i for i in range(min(len(cat), len(exp))) if cat[i] != exp[i]), min(len(cat), len(exp)))
+            out.append(('C16:e2e:out-of-order-or-duplicate',
+                        f'transfer {info["idx"]}: stream received {_show(cat)} which is not a prefix of the object '
+                        f'{_show(exp)} (first divergence at byte {k}); writes={[(o, len(d)) for o, d in writes][:10]}'))
+        oc = w.outcomes.get(info['idx'])
+        if oc and oc[0] == 'ok' and cat != exp:
+            out.append(('C16:e2e:incomplete', f'transfer {info["idx"]} succeeded with {len(cat)}/{len(exp)} bytes written'))
+    return out
+
+
+def o_failure_truth(w, tr):
+    """C03: a fault that reached the library makes result() raise one of the
+    failures that occurred (or RetriesExceeded / the cancellation error)."""
+    out = []
+    if w.sched.outcome != 'ok':
+        return out
+    inj = w.all_injected()
+    if not inj:
+        return out
+    single = len(w.transfers) == 1
+    cancelled = was_cancel_injected(tr)
+    for info in w.transfers:
+        idx = info['idx']
+        oc = w.outcomes.get(idx)
+        if oc is None:
+            continue
+        mine = tr.injected_for(idx) if not single else inj
+        if not mine:
+            continue
+        fatal = [f for f in mine if not f['retryable']]
+        retry = [f for f in mine if f['retryable']]
+        attempts = w.manager.config.num_download_attempts
+        per_call_range = {}
+        callmap = {c['id']: c for c in tr.calls}
+        for f in retry:
+            c = callmap.get(f.get('call'))
+            r = c['kwargs'].get('Range') if c else None
+            per_call_range[r] = per_call_range.get(r, 0) + 1
+        exhausted = any(n >= attempts for n in per_call_range.values())
+        # a fault only matters if it happened before the transfer was done
+        done_step = tr.first_step('cb.done', tid=idx)
+        if done_step is not None:
+            fatal = [f for f in fatal if f['step'] <= done_step]
+        # faults inside cleanup calls (abort) or after the outcome was decided
+        # cannot change the outcome; they are only counted when nothing else failed
+        fatal_main = [f for f in fatal if f.get('op') != 'AbortMultipartUpload']
+        must_fail = bool(fatal_main) or exhausted
+        if oc[0] == 'ok':
+            if must_fail:
+                what = (fatal_main or retry)[0]
+                out.append((f'C03:success-despite-fault:{what["label"]}',
+                            f'transfer {idx} reported success although {what["label"]} fault '
+                            f'{type(what["exc"]).__name__} was injected at step {what["step"]} '
+                            f'(op {what.get("op")})'))
+            continue
+        if oc[0] != 'exc':
+            continue
+        e = oc[1]
+        ids = [f['exc'] for f in mine]
+        ok = any(e is x for x in ids)
+        if not ok and isinstance(e, RetriesExceededError):
+            ok = any(e.last_exception is x for x in ids) and exhausted
+            if not ok:
+                out.append(('C03:retries-exceeded-wrongly',
+                            f'transfer {idx}: RetriesExceededError(last={e.last_exception!r}) with '
+                            f'{per_call_range} retryable faults and budget {attempts}'))
+                continue
+        if not ok and is_cancel_exc(e) and cancelled:
+            ok = True
+        if not ok:
+            # an OSError raised by the real file system as a *consequence* of an injected
+            # fault is still a failure that actually occurred; accept exceptions chained
+            # from / caused by injected ones
+            c = e
+            seen = 0
+            while c is not None and seen < 5:
+                if any(c is x for x in ids):
+                    ok = True
+                    break
+                c = c.__cause__ or c.__context__
+                seen += 1
+        if not ok:
+            out.append(('C03:wrong-exception',
+                        f'transfer {idx} raised {e!r}, which is none of the injected failures '
+                        f'{[(f["label"], type(f["exc"]).__name__) for f in mine]}'))
+        # non-retryable stream/get faults are never retried
+        for f in fatal_main:
+            c = callmap.get(f.get('call'))
+            if c and c['op'] == 'GetObject':
+                later = [d for d in tr.calls_of.get(idx, []) if d['op'] == 'GetObject' and
+                         d['kwargs'].get('Range') == c['kwargs'].get('Range') and d['begin'] > f['step']]
+                if later:
+                    out.append(('C03:non-retryable-retried',
+                                f'range {c["kwargs"].get("Range")} was requested again after non-retryable fault'))
+    return out
+
+
+def o_mpu(w, tr):
+    """C05 on the FakeS3 multipart table."""
+    out = []
+    if w.sched.outcome != 'ok':
+        return out
+    for uid, u in w.s3.uploads.items():
+        calls = [c for c in tr.calls if c.get('upload') == uid or c['kwargs'].get('UploadId') == uid]
+        create = next((c for c in calls if c['op'] == 'CreateMultipartUpload'), None)
+        if create is None or create['outcome'] != 'ok':
+            continue          # the id never reached the library
+        idx = create.get('tidx')
+        oc = w.outcomes.get(idx)
+        if oc is None:
+            continue
+        aborts = [c for c in calls if c['op'] == 'AbortMultipartUpload']
+        completes_applied = u['completes']
+        others = [c for c in calls if c['op'] not in ('AbortMultipartUpload',)]
+        if completes_applied > 1:
+            out.append(('C05:completed-twice', f'{uid} completed {completes_applied} times'))
+        if oc[0] == 'ok':
+            if completes_applied != 1:
+                out.append(('C05:success-without-complete', f'{uid}: transfer {idx} ok, completes={completes_applied}'))
+            if aborts:
+                out.append(('C05:abort-on-success', f'{uid}: transfer {idx} ok but abort issued'))
+        else:
+            done_step = tr.first_step('cb.done', tid=idx)
+            res_step = tr.first_step('user.result', idx=idx)
+            limit = min(x for x in (done_step, res_step, 10 ** 9) if x is not None)
+            early = [a for a in aborts if a['begin'] is not None and a['begin'] <= limit]
+            if not aborts:
+                out.append(('C05:orphaned-upload',
+                            f'{uid}: the library received the id, transfer {idx} ended with {type(oc[1]).__name__} '
+                            f'but no AbortMultipartUpload was issued'))
+            elif not early:
+                out.append(('C05:abort-after-done', f'{uid}: abort begun at step {aborts[0]["begin"]} after done was announced ({limit})'))
+        if aborts:
+            a0 = min(a['begin'] for a in aborts if a['begin'] is not None)
+            for c in others:
+                if c['op'] in ('UploadPart', 'UploadPartCopy', 'CompleteMultipartUpload'):
+                    if c['begin'] is not None and c['begin'] > a0:
+                        out.append((f'C05:{c["op"]}-after-abort',
+                                    f'{uid}: {c["op"]} begun at step {c["begin"]} after abort begun at {a0}'))
+                        break
+            for c in others:
+                if c['begin'] is not None and c['begin'] < a0 and (c['end'] is None or c['end'] > a0):
+                    out.append(('C05:abort-while-request-in-flight',
+                                f'{uid}: abort begun at step {a0} while {c["op"]} (begin {c["begin"]}, end {c["end"]}) was in flight'))
+                    break
+    return out
+
+
+def o_callbacks(w, tr):
+    """C08."""
+    out = []
+    if w.sched.outcome != 'ok':
+        return out
+    for info in w.transfers:
+        idx = info['idx']
+        subs = w.subs.get(idx, [])
+        calls = tr.calls_of.get(idx, [])
+        first_begin = min((c['begin'] for c in calls if c['begin'] is not None), default=None)
+        status_writes = [e for e in tr.ev('field') if e[3]['oid'] == idx and e[3]['name'] == '_status']
+        for sub in subs:
+            q = [e for e in tr.ev('cb.queued') if e[3]['tid'] == idx and e[3]['sub'] == sub.name]
+            d = [e for e in tr.ev('cb.done') if e[3]['tid'] == idx and e[3]['sub'] == sub.name]
+            dend = [e for e in tr.ev('cb.done.end') if e[3]['tid'] == idx and e[3]['sub'] == sub.name]
+            if len(q) > 1:
+                out.append(('C08:on_queued-twice', f'transfer {idx} sub {sub.name}: {len(q)} on_queued'))
+            if len(q) == 0 and calls:
+                out.append(('C08:requests-without-on_queued', f'transfer {idx}: S3 requests issued but on_queued never ran'))
+            if q and first_begin is not None and q[0][0] > first_begin:
+                out.append(('C08:on_queued-after-request', f'transfer {idx}: on_queued at step {q[0][0]}, first request at {first_begin}'))
+            if idx in w.outcomes and len(d) != 1:
+                out.append((f'C08:on_done-{len(d)}-times', f'transfer {idx} sub {sub.name}: on_done ran {len(d)} times (outcome {w.outcomes[idx][0]})'))
+            for e in d[:1]:
+                if not e[3]['done']:
+                    out.append(('C08:on_done-before-done', f'transfer {idx}: future.done() False inside on_done'))
+                if e[3]['blocked']:
+                    out.append(('C08:on_done-result-blocks', f'transfer {idx}: result() would block inside on_done'))
+                late = [c for c in calls if c['begin'] is not None and (c['end'] is None or c['end'] > e[0]) and c['begin'] <= e[0]]
+                if late:
+                    c = late[0]
+                    out.append(('C08:on_done-while-request-in-flight',
+                                f'transfer {idx}: on_done at step {e[0]} while {c["op"]} (begin {c["begin"]}, end {c["end"]}) in flight'))
+                after = [c for c in calls if c['begin'] is not None and c['begin'] > e[0]]
+                if after:
+                    c = after[0]
+                    out.append(('C08:request-after-on_done',
+                                f'transfer {idx}: {c["op"]} begun at step {c["begin"]} after on_done at {e[0]}'))
+                # outcome final: the result seen inside on_done equals the final one
+                oc = w.outcomes.get(idx)
+                if oc is not None and not sub.reenter.get('done') and not any(
+                        s.reenter.get('done') for s in subs):
+                    final = 'ok' if oc[0] == 'ok' else type(oc[1]).__name__
+                    if e[3]['res'] is not None and e[3]['res'] != final:
+                        out.append(('C08:outcome-not-final-at-on_done',
+                                    f'transfer {idx}: on_done saw {e[3]["res"]}, final outcome {final}'))
+            if d:
+                prog = [e for e in tr.ev('cb.progress') if e[3]['tid'] == idx and e[0] > d[0][0]]
+                if prog:
+                    out.append(('C08:progress-after-on_done', f'transfer {idx}: on_progress at step {prog[0][0]} after on_done began at {d[0][0]}'))
+        # size supplied -> no HeadObject
+        if any(getattr(s, 'size', None) is not None for s in subs):
+            if any(c['op'] == 'HeadObject' for c in calls):
+                out.append(('C08:head-despite-size', f'transfer {idx}: size provided in on_queued but HeadObject issued'))
+        # all subscribers' on_done ran although the first raised
+        if subs and subs[0].raise_done and idx in w.outcomes:
+            for sub in subs[1:]:
+                d = [e for e in tr.ev('cb.done') if e[3]['tid'] == idx and e[3]['sub'] == sub.name]
+                if not d:
+                    out.append(('C08:on_done-skipped-after-raise', f'transfer {idx}: {sub.name}.on_done skipped'))
+    return out
+
+
+def o_progress(w, tr):
+    """C09."""
+    out = []
+    if w.sched.outcome != 'ok':
+        return out
+    for info in w.transfers:
+        idx = info['idx']
+        if info['op'] == 'delete':
+            continue
+        oc = w.outcomes.get(idx)
+        if not oc or oc[0] != 'ok':
+            continue
+        size = len(info['expected'])
+        subs = w.subs.get(idx, [])
+        if not subs:
+            continue
+        name = subs[0].name
+        vals = [e[3]['n'] for e in tr.ev('cb.progress') if e[3]['tid'] == idx and e[3]['sub'] == name]
+        tot = 0
+        for v in vals:
+            tot += v
+            if tot < 0 or tot > size:
+                out.append(('C09:running-sum-out-of-range',
+                            f'transfer {idx} ({info["op"]}): running progress {tot} outside [0,{size}]; values {vals[:20]}'))
+                break
+        else:
+            if tot != size:
+                out.append(('C09:sum-mismatch',
+                            f'transfer {idx} ({info["op"]}, {info["t"]}): progress sums to {tot}, size {size}; values {vals[:20]}'))
+    return out
+
+
+def _intervals_max(events):
+    """events: list of (step, +1/-1); max simultaneous."""
+    events.sort(key=lambda e: (e[0], e[1]))
+    cur = mx = 0
+    for _, d in events:
+        cur += d
+        mx = max(mx, cur)
+    return mx
+
+
+def o_limits(w, tr):
+    """C10 (post-hoc over begin/end steps)."""
+    out = []
+    cfg = w.manager.config if w.manager else None
+    if cfg is None:
+        return out
+    END = 10 ** 9
+    ev_data, ev_head = [], []
+    for c in tr.calls:
+        if c['begin'] is None:
+            continue
+        iv = [(c['begin'], 1), ((c['end'] if c['end'] is not None else END), -1)]
+        if c['op'] == 'HeadObject':
+            ev_head += iv
+        elif c['op'] != 'AbortMultipartUpload':
+            ev_data += iv
+            if not c['tname'].startswith('ex0'):
+                out.append(('C10:data-request-off-request-stage', f'{c["op"]} ran on thread {c["tname"]}'))
+    mx = _intervals_max(ev_data)
+    w.sched.user['max_data_inflight'] = mx
+    if mx > cfg.max_request_concurrency:
+        out.append(('C10:request-concurrency', f'{mx} data requests in flight, max_request_concurrency={cfg.max_request_concurrency}'))
+    mh = _intervals_max(ev_head)
+    w.sched.user['max_head_inflight'] = mh
+    if mh > cfg.max_submission_concurrency:
+        out.append(('C10:submission-concurrency', f'{mh} HeadObject in flight, max_submission_concurrency={cfg.max_submission_concurrency}'))
+    # queue occupancy per executor: submit .. end
+    tagged_up, tagged_down = _tagged_labels(w)
+    occ = {}
+    sub = {}
+    for e in tr.ev('ex.submit'):
+        sub[e[3]['fut']] = (e[0], e[3]['ex'], e[3]['task'])
+    ends = {e[3]['fut']: e[0] for e in tr.ev('ex.end')}
+    for fut, (st, ex, task) in sub.items():
+        cls = 'plain'
+        base = task.split('.', 1)[-1]
+        tid = int(task.split('.', 1)[0][1:]) if task.startswith('t') and '.' in task else None
+        if ex == 'ex0':
+            if (tid, base.split('#')[0].split('@')[0]) in tagged_up:
+                cls = 'up'
+            elif (tid, base.split('#')[0].split('@')[0]) in tagged_down:
+                cls = 'down'
+        occ.setdefault((ex, cls), []).extend([(st, 1), (ends.get(fut, END), -1)])
+    limits = {('ex0', 'plain'): ('max_request_queue_size', cfg.max_request_queue_size),
+              ('ex0', 'up'): ('max_in_memory_upload_chunks', cfg.max_in_memory_upload_chunks),
+              ('ex0', 'down'): ('max_in_memory_download_chunks', cfg.max_in_memory_download_chunks),
+              ('ex1', 'plain'): ('max_submission_queue_size', cfg.max_submission_queue_size),
+              ('ex2', 'plain'): ('max_io_queue_size', cfg.max_io_queue_size)}
+    seen_max = {}
+    for k, evs in occ.items():
+        m = _intervals_max(evs)
+        seen_max[f'{k[0]}:{k[1]}'] = m
+        name, lim = limits.get(k, (None, None))
+        if lim is not None and m > lim:
+            out.append((f'C10:queue:{name}', f'{m} queued-or-running tasks on {k}, {name}={lim}'))
+    w.sched.user['max_occupancy'] = seen_max
+    # IO writes: one at a time, in queue order
+    for info in w.transfers:
+        st = info.get('stream')
+        if st is not None and hasattr(st, 'max_writers') and st.max_writers > 1:
+            out.append(('C10:concurrent-writes', f'{st.max_writers} concurrent writes to destination of transfer {info["idx"]}'))
+    io_sub = [e[3]['fut'] for e in tr.ev('ex.submit') if e[3]['ex'] == 'ex2']
+    io_start = [e[3]['fut'] for e in tr.ev('ex.start') if e[3]['ex'] == 'ex2']
+    if io_start != io_sub[:len(io_start)]:
+        out.append(('C10:io-order', 'IO tasks started in an order different from the order they were queued'))
+    ioex = [x for x in w.sched.user.get('executors', []) if x._name == 'ex2']
+    if ioex and ioex[0].max_running > 1:
+        out.append(('C10:io-threads', f'{ioex[0].max_running} IO tasks ran at once'))
+    for idx, oc in w.outcomes.items():
+        if oc[0] == 'exc' and isinstance(oc[1], NoResourcesAvailable):
+            out.append(('C10:no-resources', f'transfer {idx} failed with NoResourcesAvailable instead of blocking'))
+    return out
+
+
+def _tagged_labels(w):
+    up, down = set(), set()
+    for info in w.transfers:
+        t = info['t']
+        if t['op'] == 'upload':
+            src = t.get('src', 'path')
+            if src == 'nonseekable':
+                up.add((info['idx'], 'UploadPartTask'))
+                up.add((info['idx'], 'PutObjectTask'))
+            elif src == 'seekable':
+                up.add((info['idx'], 'UploadPartTask'))
+        elif t['op'] == 'download' and t.get('dst') in ('nonseekable', 'special'):
+            down.add((info['idx'], 'GetObjectTask'))
+            down.add((info['idx'], 'ImmediatelyWriteIOGetObjectTask'))
+    return up, down
+
+
+def o_memory(w, tr):
+    """C11 (post-hoc)."""
+    out = []
+    cfg = w.manager.config if w.manager else None
+    if cfg is None:
+        return out
+    END = 10 ** 9
+    # uploads from streams: bytes read from user streams minus bytes of finished part requests
+    stream_uploads = [i for i in w.transfers if i['op'] == 'upload' and i['t'].get('src') in ('seekable', 'nonseekable')]
+    if stream_uploads:
+        ev = []
+        names = {f'src{i["idx"]}': i['idx'] for i in stream_uploads}
+        for e in tr.ev('src.read'):
+            if e[3]['name'] in names and e[3]['n']:
+                ev.append((e[0], e[3]['n']))
+        idxs = set(names.values())
+        for c in tr.calls:
+            if c.get('tidx') in idxs and c['op'] in ('UploadPart', 'PutObject') and c.get('body_len') and c['end'] is not None:
+                ev.append((c['end'], -c['body_len']))
+        ev.sort()
+        cur = mx = 0
+        for _, d in ev:
+            cur += d
+            mx = max(mx, cur)
+        per = max(cfg.multipart_chunksize, cfg.multipart_threshold)
+        # effective chunksize may have been raised by the adjuster
+        adj = w.scn.get('adjuster') or {}
+        per = max(per, adj.get('min_size', 0))
+        limit = (cfg.max_in_memory_upload_chunks + cfg.max_submission_concurrency) * per
+        w.sched.user['max_upload_buffered'] = mx
+        if mx > limit:
+            out.append(('C11:upload-buffers',
+                        f'{mx} bytes read from user streams and not yet sent; limit '
+                        f'({cfg.max_in_memory_upload_chunks}+{cfg.max_submission_concurrency})*{per}={limit}'))
+    # downloads to non-seekable: window
+    for info in w.transfers:
+        t = info['t']
+        if t['op'] != 'download' or t.get('dst') not in ('nonseekable', 'special'):
+            continue
+        idx = info['idx']
+        gets = [c for c in tr.calls_of.get(idx, []) if c['op'] == 'GetObject' and c['kwargs'].get('Range')]
+        if not gets:
+            continue
+        c_sz = cfg.multipart_chunksize
+
+        def part_of(c):
+            return int(c['kwargs']['Range'].split('=')[1].split('-')[0]) // c_sz
+        # a part is finished when its GetObjectTask ended
+        task_end = {}
+        for e in tr.ev('ex.end'):
+            lab = e[3]['task']
+            if lab.startswith(f't{idx}.GetObjectTask@'):
+                task_end[int(lab.split('@')[1]) // c_sz] = e[0]
+        nparts = max(part_of(c) for c in gets) + 1
+        win = cfg.max_in_memory_download_chunks
+        if len(w.transfers) == 1 or all(x['t'].get('dst') not in ('nonseekable', 'special') for x in w.transfers if x is not info):
+            for c in gets:
+                p = part_of(c)
+                lowest = min([q for q in range(nparts) if task_end.get(q, END) > c['begin']], default=nparts)
+                if p - lowest >= win:
+                    out.append(('C11:download-window',
+                                f'transfer {idx}: part {p} requested at step {c["begin"]} while lowest unfinished part is {lowest}; window {win}'))
+                    break
+        # bytes received minus bytes written
+        ev = []
+        for e in tr.ev('stream.read'):
+            cc = next((c for c in gets if c['id'] == e[3]['call']), None)
+            if cc is not None and e[3]['n']:
+                ev.append((e[0], e[3]['n']))
+        sink_name = f'dst{idx}' if t.get('dst') == 'nonseekable' else 'special'
+        for e in tr.ev('sink.write'):
+            if e[3]['name'] == sink_name:
+                ev.append((e[0], -e[3]['n']))
+        # retried ranges deliver bytes again that are dropped: only count when no retry happened
+        if not any(f['retryable'] for f in w.all_injected()):
+            ev.sort()
+            cur = mx = 0
+            for _, d in ev:
+                cur += d
+                mx = max(mx, cur)
+            lim = win * c_sz + cfg.max_io_queue_size * cfg.io_chunksize + cfg.max_request_concurrency * cfg.io_chunksize
+            w.sched.user['max_download_buffered'] = mx
+            if mx > lim:
+                out.append(('C11:download-buffered', f'transfer {idx}: {mx} bytes received and not yet written; bound {lim}'))
+    return out
+
+
+def o_semaphores(w, tr):
+    """C12(c): at quiescence every semaphore is back at full capacity."""
+    out = []
+    if w.sched.outcome != 'ok' or not w.script_done:
+        return out
+    for sem in w.sched.user.get('semaphores', []):
+        if sem._value != sem._initial:
+            out.append(('C12:e2e:semaphore-not-full', f'{sem!r} at quiescence'))
+    fw = getattr(w, 'final_windows', None)
+    if fw:
+        for n, conf in fw:
+            if n != conf:
+                out.append(('C12:e2e:window-not-full', f'sliding window at {n}, configured {conf}'))
+    return out
+
+
+def o_barrier(w, tr):
+    """C18: nothing happens after shutdown returned; isolation."""
+    out = []
+    if w.sched.outcome != 'ok':
+        return out
+    sh = tr.first_step('user.shutdown_returned')
+    if sh is None:
+        return out
+    for kind in ('s3.begin', 'fs.write', 'sink.write', 'cb.queued', 'cb.progress', 'cb.done', 'fs.rename', 'fs.remove'):
+        late = [e for e in tr.ev(kind) if e[0] > sh]
+        if late:
+            out.append((f'C18:{kind}-after-shutdown',
+                        f'{kind} {late[0][3]} at step {late[0][0]} after shutdown returned at step {sh}'))
+    # every transfer done when shutdown returned
+    for info in w.transfers:
+        idx = info['idx']
+        d = tr.first_step('cb.done', tid=idx)
+        if d is None or d > sh:
+            out.append(('C18:not-done-at-shutdown', f'transfer {idx} not done when shutdown returned'))
+    return out
+
+
+def o_isolation(w, tr):
+    """C18: a transfer that was neither faulted nor cancelled succeeds."""
+    out = []
+    if w.sched.outcome != 'ok':
+        return out
+    victims = set(w.scn.get('victims', ()))
+    for info in w.transfers:
+        idx = info['idx']
+        if idx in victims:
+            continue
+        oc = w.outcomes.get(idx)
+        if oc and oc[0] != 'ok':
+            out.append(('C18:bystander-failed',
+                        f'transfer {idx} ({info["op"]}) failed with {oc[1]!r} although only transfers {sorted(victims)} were faulted/cancelled'))
+    return out
+
+
+def o_cancel(w, tr):
+    """C07."""
+    out = []
+    if w.sched.outcome != 'ok':
+        return out
+    scn = w.scn
+    for t in w.sched.threads:
+        if t.role == 'inject' and t.exc is not None:
+            out.append((f'C07:entry-point-raised:{t.name}', f'{t.name} raised {t.exc!r}'))
+    for e in tr.ev('inject.raised'):
+        out.append((f'C07:entry-point-raised:{e[3]["kind"]}',
+                    f'{e[3]["kind"]} raised {e[3]["exc"]}: {e[3]["msg"]}'))
+    script = scn.get('script', 'wait')
+    expectations = []    # (step, targets, exc_type, msg)
+    for e in tr.ev('inject'):
+        k = e[3]['kind']
+        if k == 'cancel':
+            expectations.append((e[0], [e[3]['target']], CancelledError, ''))
+        elif k == 'shutdown_cancel':
+            expectations.append((e[0], list(range(len(w.futures))), CancelledError, e[3]['msg']))
+        elif k == 'ctrlc':
+            expectations.append((e[0], list(range(len(w.futures))), CancelledError, None))
+    if script == 'with_raise_kbd':
+        expectations.append((tr.first_step('user.submitted', idx=len(w.futures) - 1) or 0,
+                             list(range(len(w.futures))), CancelledError, 'KeyboardInterrupt()'))
+    elif script == 'with_raise_value':
+        expectations.append((0, list(range(len(w.futures))), FatalError, 'boom'))
+    elif script == 'with_raise_empty':
+        expectations.append((0, list(range(len(w.futures))), FatalError, 'UserBoom()'))
+    if not expectations:
+        return out
+    faults = w.all_injected()
+    status_writes = {}
+    for e in tr.ev('field'):
+        if e[3]['name'] == '_status' and e[3]['cls'] == 'TransferCoordinator':
+            status_writes.setdefault(e[3]['oid'], []).append((e[0], e[3]['value']))
+    for info in w.transfers:
+        idx = info['idx']
+        oc = w.outcomes.get(idx)
+        if oc is None:
+            continue
+        exps = [x for x in expectations if idx in x[1]]
+        if not exps:
+            continue
+        calls = tr.calls_of.get(idx, [])
+        sw = status_writes.get(idx, [])
+        # which status did the (first) cancel overwrite?
+        cancelled_from = None
+        for i, (st, val) in enumerate(sw):
+            if val == 'cancelled':
+                cancelled_from = sw[i - 1][1] if i > 0 else 'not-started'
+                break
+        if oc[0] == 'exc' and is_cancel_exc(oc[1]):
+            e = oc[1]
+            okk = False
+            for (_, _, typ, msg) in exps:
+                if type(e) is typ and (msg is None or str(e) == msg or
+                                       (msg is None and str(e) in ('', 'KeyboardInterrupt()'))):
+                    okk = True
+                if msg is None and type(e) is CancelledError and str(e) in ('', 'KeyboardInterrupt()'):
+                    okk = True
+            if not okk:
+                out.append(('C07:wrong-cancel-error',
+                            f'transfer {idx} ended with {type(e).__name__}({str(e)!r}); entry points prescribe '
+                            f'{[(t.__name__, m) for _, _, t, m in exps]}'))
+            if cancelled_from == 'not-started' and sw:
+                if calls:
+                    out.append(('C07:requests-for-unstarted-transfer',
+                                f'transfer {idx} was cancelled before it started but issued {[c["op"] for c in calls]}'))
+                if any(ev[3]['tid'] == idx for ev in tr.ev('cb.queued')):
+                    out.append(('C07:on_queued-for-unstarted-transfer', f'transfer {idx}'))
+        elif oc[0] == 'ok':
+            pass        # success is admissible when the cancel raced completion; effect checked by o_exact
+        elif oc[0] == 'exc' and not faults:
+            out.append(('C07:wrong-outcome',
+                        f'transfer {idx} ended with {oc[1]!r} although only a cancellation happened'))
+        # unfinished at cancel time must end cancelled or complete successfully:
+        first_cancel = min(x[0] for x in exps)
+    # shutdown(cancel) / with-exit must have returned
+    if script.startswith('with') or script in ('wait', 'shutdown'):
+        if not tr.ev('user.shutdown_returned'):
+            out.append(('C07:shutdown-did-not-return', 'user thread never returned from shutdown / with-exit'))
+    return out
+
+
+def o_fs(w, tr):
+    """C06 end-state clauses (the at-every-instant clause is checked by the fs monitor)."""
+    out = []
+    if w.sched.outcome != 'ok' or not w.script_done:
+        return out
+    expected_names = set()
+    for info in w.transfers:
+        if info['op'] == 'upload' and info['t'].get('src', 'path') == 'path':
+            expected_names.add(f'src{info["idx"]}')
+        if info['op'] == 'download' and info['t'].get('dst', 'path') == 'path':
+            idx = info['idx']
+            oc = w.outcomes.get(idx)
+            prev = info['t'].get('preexisting')
+            prev_b = prev.encode() if isinstance(prev, str) else prev
+            name = f'dst{idx}'
+            try:
+                with open(info['path'], 'rb') as f:
+                    cur = f.read()
+            except FileNotFoundError:
+                cur = None
+            if oc and oc[0] == 'ok':
+                expected_names.add(name)
+            else:
+                renamed = any(e[3].get('to') == name for e in tr.ev('fs.renamed'))
+                cancelled = oc and oc[0] == 'exc' and is_cancel_exc(oc[1])
+                if cur is not None:
+                    expected_names.add(name)
+                if cur != prev_b:
+                    if cur == info['expected'] and renamed and (cancelled or was_cancel_injected(tr)):
+                        pass       # cancel raced the final rename
+                    else:
+                        out.append(('C06:destination-changed-after-failure',
+                                    f'transfer {idx} ended with {(oc[1] if oc else None)!r}; destination holds {_show(cur)}, previous content {_show(prev_b)}'))
+    listing = set(w.final_listing)
+    extra = listing - expected_names
+    if extra:
+        out.append(('C06:temp-file-left', f'directory holds {sorted(listing)}, expected {sorted(expected_names)}'))
+    for v in w.sched.user.get('fs_monitor_violations', [])[:1]:
+        out.append(v)
+    return out
+
+
+def fs_monitor(w):
+    """on_point callback: the destination path never holds partial content."""
+    v = w.sched.user.setdefault('fs_monitor_violations', [])
+    if v:
+        return
+    for info in w.transfers:
+        if info['op'] != 'download' or info['t'].get('dst', 'path') != 'path':
+            continue
+        p = info['path']
+        try:
+            with open(p, 'rb') as f:
+                cur = f.read()
+        except FileNotFoundError:
+            cur = None
+        prev = info['t'].get('preexisting')
+        prev_b = prev.encode() if isinstance(prev, str) else prev
+        if cur != prev_b and cur != info['expected']:
+            v.append(('C06:partial-content-visible',
+                      f'at step {w.sched.step} destination of transfer {info["idx"]} holds {_show(cur)} '
+                      f'(previous {_show(prev_b)}, object {_show(info["expected"])})'))
+        w.sched.user['fs_monitor_points'] = w.sched.user.get('fs_monitor_points', 0) + 1
+
+
+ALL_ORACLES = [o_termination, o_exact, o_streaming_order, o_failure_truth, o_mpu,
+               o_callbacks, o_progress, o_limits, o_memory, o_semaphores, o_barrier,
+               o_cancel, o_fs]
+
+
+def signature(w, tr):
+    outs = tuple((i, o[0] if o[0] == 'ok' else type(o[1]).__name__) for i, o in sorted(w.outcomes.items()))
+    order = tuple((c['op'], c['kwargs'].get('PartNumber'), c['kwargs'].get('Range'), c['outcome']) for c in tr.calls)
+    ends = tuple(sorted((c['end'] or 0, c['id']) for c in tr.calls))
+    endorder = tuple(i for _, i in ends)
+    return explore.sig_hash((w.sched.outcome, outs, order, endorder))
+
+
+def run_exec(scn, prefix, scratch, oracles=ALL_ORACLES, want=None, monitor_fs=False):
+    w = harness.run_scenario(scn, prefix, scratch=scratch,
+                             on_point=fs_monitor if monitor_fs else None)
+    tr = Tr(w)
+    x = explore.Exec()
+    s = w.sched
+    x.decisions = [d.as_tuple() for d in s.decisions]
+    x.outcome = s.outcome
+    x.detail = s.outcome_detail
+    x.steps = s.step
+    x.extra['max_threads'] = s.max_threads
+    seen = set()
+    for o in oracles:
+        try:
+            res = o(w, tr)
+        except detsched.HarnessError:
+            raise
+        for sig, msg in res:
+            if want is not None and not sig.startswith(want):
+                continue
+            if sig in seen:
+                continue
+            seen.add(sig)
+            x.violations.append({'sig': sig, 'msg': msg})
+    x.signature = signature(w, tr)
+    x.extra['user'] = {k: v for k, v in s.user.items() if k.startswith('max_')}
+    x.extra['n_injected'] = len(w.all_injected())
+    inj = tr.ev('inject')
+    x.extra['inject_effective'] = int(any(
+        (e[3].get('done_before') is False) or (isinstance(e[3].get('done_before'), list) and not all(e[3]['done_before']))
+        for e in inj))
+    x.extra['inject_ran'] = int(bool(inj))
+    x.sample = {'outcomes': {i: (o[0] if o[0] == 'ok' else repr(o[1])) for i, o in w.outcomes.items()},
+                's3_calls': [c['op'] for c in tr.calls][:30]}
+    return x
+
+
+# ---------------------------------------------------------------------------
+# job runner: explore one scenario to a bound (runs in pool workers)
+# ---------------------------------------------------------------------------
+
+_SCRATCH = None
+
+
+def _scratch():
+    global _SCRATCH
+    if _SCRATCH is None:
+        _SCRATCH = ScratchDir('vtw')
+        import atexit
+        atexit.register(_SCRATCH.cleanup)
+    return _SCRATCH
+
+
+def explore_job(job):
+    """job: dict(scn, bound, want, forced_cost, max_execs, monitor_fs, deadline, seed)"""
+    want = job.get('want')
+    sd = _scratch()
+    mon = job.get('monitor_fs', False)
+    if 'scns' in job:
+        # sweep: each scenario explored to the (small) bound, stats merged
+        tot = explore.Stats()
+        viol = []
+        for scn in job['scns']:
+            st = explore.explore(lambda p: run_exec(scn, p, sd, want=want, monitor_fs=mon),
+                                 job['bound'], forced_cost=job.get('forced_cost', 1),
+                                 max_execs=job.get('max_execs'), keep_samples=1)
+            tot.merge(st)
+            for ch, v in st.violations:
+                viol.append({'sig': v['sig'], 'msg': v['msg'] + f' | scenario={_scn_brief(scn)} choices={ch}',
+                             'replay': {'kind': 'manager', 'scn': scn, 'choices': ch, 'want': want,
+                                        'monitor_fs': mon}})
+            if len(viol) >= 5:
+                break
+        return {'name': job.get('name', ''), 'stats': tot, 'violations': viol}
+    scn = job['scn']
+    st = explore.explore(lambda p: run_exec(scn, p, sd, want=want, monitor_fs=mon),
+                         job['bound'], forced_cost=job.get('forced_cost', 1),
+                         max_execs=job.get('max_execs'), seed=job.get('seed', 0),
+                         deadline=job.get('deadline'), root_prefix=job.get('root_prefix', ()))
+    viol = []
+    for ch, v in st.violations:
+        viol.append({'sig': v['sig'], 'msg': v['msg'] + f' | scenario={_scn_brief(scn)} choices={ch}',
+                     'replay': {'kind': 'manager', 'scn': scn, 'choices': ch, 'want': want,
+                                'monitor_fs': mon}})
+    return {'name': job.get('name', ''), 'stats': st, 'violations': viol}
+
+
+def _scn_brief(scn):
+    return {k: v for k, v in scn.items() if k in ('config', 'transfers', 'script', 'inject', 'faults', 'objects', 'rcc')}
+
+
+def run_catalogue(jobs, tier, prop, extra_rule=''):
+    """Runs exploration jobs in parallel, merges stats into evidence coverage."""
+    t0 = time.time()
+    res = explore.run_jobs(explore_job, jobs)
+    tot = explore.Stats()
+    viol = []
+    per = {}
+    for r, j in zip(res, jobs):
+        sc = j.get('scn')
+        if sc is not None and sc.get('inject') and not r['stats'].violations:
+            if not r['stats'].counters.get('inject_ran'):
+                raise detsched.HarnessError(f'vacuous job: injection never ran in {j["name"]}')
+        tot.merge(r['stats'])
+        viol.extend(r['violations'])
+        d = r['stats'].to_dict()
+        per[r['name']] = {'executions': d['executions'], 'distinct_outcomes': d['distinct_outcomes'],
+                          'outcomes': d['outcomes'], 'caps_hit': d['caps_hit']}
+    cov = {
+        'states': tot.states, 'transitions': tot.transitions,
+        'traces_validated_against_impl': tot.executions,
+        'evaluations': tot.executions, 'executions': tot.executions,
+        'distinct_nontrivial': len(tot.signatures), 'distinct_outcomes': len(tot.signatures),
+        'rule': 'every choice sequence (thread schedule + environment answers) within the deviation bound of each '
+                'scenario is executed on the real code; distinct = distinct (outcomes, S3 call order, completion order) signatures. ' + extra_rule,
+        'samples': tot.samples[:3],
+        'max_threads': tot.max_threads,
+        'caps_hit': tot.caps_hit,
+        'exhaustive': not tot.caps_hit,
+        'scenarios': len(jobs),
+        'per_scenario': per if len(per) <= 60 else {k: per[k] for k in list(per)[:60]},
+        'known': tot.known,
+        'executions_with_injected_fault': tot.counters.get('n_injected', 0),
+        'executions_with_cancel_before_done': tot.counters.get('inject_effective', 0),
+        'maxima_observed': tot.maxima,
+    }
+    return cov, viol
 
 
 def replay_manager(data):
-    raise NotImplementedError
+    sd = _scratch()
+    x = run_exec(data['scn'], data['choices'], sd, want=data.get('want'),
+                 monitor_fs=data.get('monitor_fs', False))
+    return {'outcome': x.outcome, 'detail': x.detail, 'violations': x.violations,
+            'sample': x.sample, 'digest': repr(x.decisions) + str(x.signature)}
+
+
+# placeholders used by C12 / C16 until the e2e catalogues below are wired
+def semaphore_quiescence(tier, seed):
+    from . import catalog
+    jobs = catalog.jobs_for('C12', tier, seed)
+    cov, viol = run_catalogue(jobs, tier, 'C12')
+    return {'coverage': cov, 'violations': viol}
+
+
+def stream_download_e2e(tier, seed):
+    from . import catalog
+    jobs = catalog.jobs_for('C16', tier, seed)
+    cov, viol = run_catalogue(jobs, tier, 'C16')
+    return {'coverage': cov, 'violations': viol}
+
+
+ASSUMPTIONS = [
+    'environment models: FakeS3 + validating fake client (parameters validated by botocore\'s ParamValidator against the installed S3 model), DetExecutor model of ThreadPoolExecutor, controlled Lock/Condition/Event/Semaphore',
+    'upload bodies are driven by the body protocol recorded from real botocore (tell/read*/seek(0) while progress is suppressed, then read*; retry = seek(0) + the same again)',
+    'KeyboardInterrupt is delivered only at blocking waits of the user thread',
+    'set iteration order of id-hashed objects fixed to creation order',
+]
